@@ -639,7 +639,7 @@ func FuzzyMatchV2(caseSensitive bool, normalize bool, forward bool, input *util.
 				}
 				i--
 			}
-			preferMatch = C[I+j0] > 1 || I+width+j0+1 < len(C) && C[I+width+j0+1] > 0
+			preferMatch = C[I+j0] > 1 || I+width+j0+1 < len(C) && j+1 >= int(F[I/width+1]) && C[I+width+j0+1] > 0
 			j--
 		}
 	}
